@@ -1,6 +1,10 @@
 package main
 
-import "verif/harness/vgen"
+import (
+	"sort"
+
+	"verif/harness/vgen"
+)
 
 // builder appends a step only when the sequential program so far makes it
 // meaningful (the handles it needs exist), so that the model's "no such handle:
@@ -61,6 +65,16 @@ func (b *builder) add(s Step) bool {
 			s.Kind, s.Arg = k, b.meterOf[s.Same]
 			b.origin[id] = s.Same
 		}
+		if s.Near > 0 { // the name and kind of an earlier request under another description / unit
+			k, ok := b.kindOf[s.Near]
+			if !ok || s.Same > 0 || s.Mode < 1 || s.Mode > 3 {
+				return false
+			}
+			s.Kind, s.Arg, s.Bad = k, b.meterOf[s.Near], 0
+			if b.badInst[s.Near] && b.installed == 0 {
+				b.badInst[id] = true
+			}
+		}
 		if !b.globalMeter[s.Arg] {
 			return false
 		}
@@ -99,6 +113,11 @@ func (b *builder) add(s Step) bool {
 		for _, i := range s.Obs {
 			k, ok := b.kindOf[i]
 			if !ok || !isObservable(k) || b.meterOf[i] != s.Arg || b.badInst[i] {
+				return false
+			}
+		}
+		for _, i := range s.Extra {
+			if k, ok := b.kindOf[i]; !ok || !isObservable(k) {
 				return false
 			}
 		}
@@ -252,6 +271,54 @@ func systematic(kind int) [][]Step {
 			}
 			b.add(Step{Op: opInstall, Prov: 1})
 			out = append(out, b.finish())
+		}
+	}
+	// near-identities: same name and kind, another description (1) / unit (2) / both (3) - distinct streams
+	for mode := 1; mode <= 3; mode++ {
+		for v := 0; v < 3; v++ {
+			b := newBuilder()
+			b.add(Step{Op: opMeter, Arg: 0})
+			b.add(Step{Op: opInst, Arg: 0, Kind: kind, CB: true}) // 1
+			if v == 2 {
+				b.add(Step{Op: opInstall})
+			}
+			b.add(Step{Op: opInst, Near: 1, Mode: mode, CB: true})
+			n2 := len(b.steps) - 1
+			b.add(Step{Op: opInst, Near: 1, Mode: 3, CB: v == 0})
+			if isObservable(kind) {
+				b.add(Step{Op: opRegister, Arg: 0, Obs: []int{1, n2}})
+				b.add(Step{Op: opRegister, Arg: 0, Obs: []int{n2}})
+			} else {
+				b.add(Step{Op: opRecord, Arg: 1})
+				b.add(Step{Op: opRecord, Arg: n2})
+			}
+			if v == 1 {
+				b.add(Step{Op: opInst, Same: n2}) // and that near-identity once more
+			}
+			b.add(Step{Op: opInstall})
+			out = append(out, b.finish())
+		}
+	}
+	// a callback registered for valid observables that ALSO observes a never-connected placeholder (SDK-rejected
+	// name) and an observable of another meter: no panic in Collect, the valid observations arrive
+	if isObservable(kind) {
+		for bad := 1; bad <= 4; bad++ {
+			for v := 0; v < 2; v++ {
+				b := newBuilder()
+				b.add(Step{Op: opMeter, Arg: 0})
+				b.add(Step{Op: opMeter, Arg: 1})
+				b.add(Step{Op: opInst, Arg: 0, Kind: kind})                     // 2 valid
+				b.add(Step{Op: opInst, Arg: 0, Kind: kind, Bad: bad})           // 3 never connected
+				b.add(Step{Op: opInst, Arg: 1, Kind: 8 + (kind+1)%6})           // 4 another meter
+				b.add(Step{Op: opInst, Arg: 0, Kind: 8 + (kind+3)%6, Bad: bad}) // 5 never connected, other number type possible
+				if v == 1 {
+					b.add(Step{Op: opInstall})
+				}
+				b.add(Step{Op: opRegister, Arg: 0, Obs: []int{2}, Extra: []int{3, 4, 5}})
+				b.add(Step{Op: opRegister, Arg: 0, Obs: []int{2}, Extra: []int{5, 3}})
+				b.add(Step{Op: opInstall})
+				out = append(out, b.finish())
+			}
 		}
 	}
 	// the same identity requested 2-3 times before (and after) installation: every handle must work
@@ -411,7 +478,11 @@ func randomProgram(r *vgen.Rand) []Step {
 			b.add(Step{Op: opInst, Arg: r.Intn(3), Kind: r.Intn(nKinds), Bad: bad, CB: bad > 0})
 		case 6:
 			if all := append(append([]int(nil), b.syncs...), flatten(b.obs)...); len(all) > 0 && r.Bool() {
-				b.add(Step{Op: opInst, Same: vgen.Pick(r, all), CB: r.Bool()}) // an existing identity again
+				if r.Bool() {
+					b.add(Step{Op: opInst, Same: vgen.Pick(r, all), CB: r.Bool()}) // an existing identity again
+				} else {
+					b.add(Step{Op: opInst, Near: vgen.Pick(r, all), Mode: 1 + r.Intn(3), CB: r.Bool()})
+				}
 			} else {
 				b.add(Step{Op: opInst, Arg: r.Intn(3), Kind: 8 + r.Intn(6), CB: r.Bool()})
 			}
@@ -426,7 +497,20 @@ func randomProgram(r *vgen.Rand) []Step {
 				if y := vgen.Pick(r, l); y != obs[0] && r.Bool() {
 					obs = append(obs, y)
 				}
-				b.add(Step{Op: opRegister, Arg: k, Obs: obs})
+				var extra []int
+				if r.Chance(1, 3) { // also observe an observable of ANOTHER meter (never one it is registered for)
+					var other []int
+					for m, l := range b.obs {
+						if m != k {
+							other = append(other, l...)
+						}
+					}
+					sort.Ints(other)
+					if len(other) > 0 {
+						extra = append(extra, vgen.Pick(r, other))
+					}
+				}
+				b.add(Step{Op: opRegister, Arg: k, Obs: obs, Extra: extra})
 			}
 		case 13, 14:
 			if len(b.regs) > 0 {
@@ -509,7 +593,7 @@ func badLists(steps []Step) (rec, cb []int) {
 		case opInstall:
 			installed = true
 		case opInst:
-			if !installed && ((s.Same == 0 && s.Bad >= 1 && s.Bad <= 4) || (s.Same > 0 && bad[s.Same])) {
+			if !installed && ((s.Same == 0 && s.Near == 0 && s.Bad >= 1 && s.Bad <= 4) || (s.Same > 0 && bad[s.Same]) || (s.Near > 0 && bad[s.Near])) {
 				bad[j] = true // (a creation-time callback on it is registered by the SDK constructor all the same)
 			}
 		case opRecord:
